@@ -712,6 +712,62 @@ def run(index, rep, tier):
         nb = borrow(index, rep, "C06", {"R06.6"}, "R05.16")
         rep.floor("R05.16", "borrowed obligations", 2, nb)
 
+    # ---- R05.17 the median is read at the middle of the sorted sample
+    with rep.section("R05.17"):
+        rep.rule("R05.17", "the median is read at the middle of the sorted sample: in calculate.statistics.median the index expressions are pure integer arithmetic on the sample size, so they are folded here for sizes 1..9 along the parity branch the function takes: an odd size 2m+1 reads exactly position m, an even size 2m exactly positions m-1 and m (the summaries `length_median` / `age_median` and the `median-length` / `median-age` consensus settings are this function)")
+        mf = index.function("dendropy.calculate.statistics.median")
+
+        def fold(e, env):
+            if isinstance(e, ast.Constant) and isinstance(e.value, (int, float)):
+                return e.value
+            if isinstance(e, ast.Name) and e.id in env:
+                return env[e.id]
+            if isinstance(e, ast.BinOp):
+                a, b = fold(e.left, env), fold(e.right, env)
+                ops = {ast.Add: lambda: a + b, ast.Sub: lambda: a - b, ast.Mult: lambda: a * b, ast.Div: lambda: a / b, ast.FloorDiv: lambda: a // b, ast.Mod: lambda: a % b}
+                if type(e.op) in ops:
+                    return ops[type(e.op)]()
+            if isinstance(e, ast.UnaryOp) and isinstance(e.op, ast.USub):
+                return -fold(e.operand, env)
+            if isinstance(e, ast.Call) and isinstance(e.func, ast.Name) and e.func.id in ("int", "round", "abs") and len(e.args) == 1:
+                return {"int": int, "round": round, "abs": abs}[e.func.id](fold(e.args[0], env))
+            if isinstance(e, ast.Compare) and len(e.ops) == 1:
+                a, b = fold(e.left, env), fold(e.comparators[0], env)
+                cm = {ast.Eq: a == b, ast.NotEq: a != b, ast.Lt: a < b, ast.LtE: a <= b, ast.Gt: a > b, ast.GtE: a >= b}
+                return cm[type(e.ops[0])]
+            if isinstance(e, ast.UnaryOp) and isinstance(e.op, ast.Not):
+                return not fold(e.operand, env)
+            raise AnalysisError("R05.17: `%s` in statistics.median is not integer arithmetic on the sample size" % norm(e)[:50])
+
+        size_names = {t.id for a in walk_no_nested(mf.node) if isinstance(a, ast.Assign) and isinstance(a.value, ast.Call) and call_name(a.value) == "len" for t in a.targets if isinstance(t, ast.Name)}
+        sorted_names = {t.id for a in walk_no_nested(mf.node) if isinstance(a, ast.Assign) and isinstance(a.value, ast.Call) and call_name(a.value) == "sorted" for t in a.targets if isinstance(t, ast.Name)}
+        if not size_names or not sorted_names:
+            raise AnalysisError("R05.17: statistics.median: the sorted copy / its size not recognised")
+        bad17 = None
+        for n_ in range(1, 10):
+            env = {s_: n_ for s_ in size_names}
+            read = set()
+
+            def run17(stmts):
+                for st in stmts:
+                    if isinstance(st, ast.Assign) and len(st.targets) == 1 and isinstance(st.targets[0], ast.Name) and st.targets[0].id not in size_names and st.targets[0].id not in sorted_names:
+                        env[st.targets[0].id] = fold(st.value, env)
+                    elif isinstance(st, ast.If):
+                        if run17(st.body if fold(st.test, env) else st.orelse):
+                            return True
+                    elif isinstance(st, ast.Return):
+                        for x in ast.walk(st.value):
+                            if isinstance(x, ast.Subscript) and isinstance(x.value, ast.Name) and x.value.id in sorted_names:
+                                read.add(fold(x.slice, env))
+                        return True
+                return False
+            run17([s_ for s_ in mf.node.body if not (isinstance(s_, ast.Expr) and isinstance(s_.value, ast.Constant))])
+            want = {n_ // 2} if n_ % 2 else {n_ // 2 - 1, n_ // 2}
+            if read != want and bad17 is None:
+                bad17 = (n_, sorted(read), sorted(want))
+        rep.check(bad17 is None, "R05.17", mf.qualname, "median read beside the middle", fn_where(mf), "statistics.median reads position m of 2m+1 values and positions m-1, m of 2m values (folded for sizes 1..9)",
+                  "statistics.median reads the sorted sample at %s for a sample of %s values, where the median lies at %s: every `length_median` / `age_median` summary and every consensus tree built with set_edge_lengths='median-length' / 'median-age' from an even number (four or more) of trees is off by one order statistic" % (bad17[1] if bad17 else "", bad17[0] if bad17 else "", bad17[2] if bad17 else ""))
+
 
 def _weight_rule_text(fi, name):
     """Normalised text of the if/else that defines the per-tree weight."""
